@@ -90,3 +90,57 @@ Proof.
   { apply (text_agrees_sound [TBytes b] (S (length b)) i); [repeat constructor; exact Hb | cbn [render]; rewrite app_nil_r; lia | cbn [render]; rewrite app_nil_r; exact H]. }
   inversion A as [|? ? ? A'|]; subst. inversion A'; subst. apply app_nil_r.
 Qed.
+
+(* ------------------------------------------------------------------ completeness: no false alarm ----
+   every text that is the token sequence with each double spelled by ANY JSON number lexeme denoting its bits is accepted,
+   provided a double is followed by a byte that cannot continue a number (in JSON: a comma, a bracket, a brace, a quote)
+   or by the end of the text — scan_num reads the longest numeric prefix *)
+Definition starts_sep (r : list tok) : Prop :=
+  match r with
+  | [] => True
+  | TBytes (c :: _) :: _ => is_numchar c = false
+  | _ => False
+  end.
+
+Fixpoint sep_ok (ts : list tok) : Prop :=
+  match ts with
+  | [] => True
+  | TDouble _ :: r => starts_sep r /\ sep_ok r
+  | TBytes _ :: r => sep_ok r
+  end.
+
+Lemma agrees_stop ts i : starts_sep ts -> agrees ts i -> stop i = true.
+Proof.
+  intros Hs Ha. destruct ts as [|[b|x] ts]; cbn [starts_sep] in Hs.
+  - inversion Ha. reflexivity.
+  - destruct b as [|c b]; [destruct Hs|]. inversion Ha; subst. cbn [app stop]. rewrite Hs. reflexivity.
+  - destruct Hs.
+Qed.
+
+Lemma bytes_complete : forall b fuel m i, Forall (fun c => c <> 1) b -> (length (b ++ m) < fuel)%nat ->
+  (forall fuel', (length m < fuel')%nat -> text_agrees fuel' m i = true) ->
+  text_agrees fuel (b ++ m) (b ++ i) = true.
+Proof.
+  induction b as [|c b IH]; intros fuel m i Hb Hf Hm; [apply Hm; exact Hf|].
+  inversion Hb as [|? ? Hc Hb']; subst. destruct fuel as [|fuel]; [cbn in Hf; lia|].
+  cbn [app text_agrees]. destruct (Z.eqb_spec c 1); [contradiction|].
+  rewrite Z.eqb_refl. cbn [andb]. apply IH; [exact Hb' | cbn [app length] in Hf; lia | exact Hm].
+Qed.
+
+Theorem text_agrees_complete : forall ts i, agrees ts i -> Forall tok_ok ts -> sep_ok ts ->
+  forall fuel, (length (render fd_mark ts) < fuel)%nat -> text_agrees fuel (render fd_mark ts) i = true.
+Proof.
+  intros ts i Ha. induction Ha as [|b ts i Ha IH|x l ts i Hl Hx Ha IH]; intros Hok Hsep fuel Hf.
+  - destruct fuel as [|fuel]; [cbn in Hf; lia|]. reflexivity.
+  - inversion Hok as [|? ? Ht Hok']; subst. cbn [render] in *. cbn [sep_ok] in Hsep.
+    apply bytes_complete; [exact Ht | exact Hf | intros fuel' Hf'; exact (IH Hok' Hsep fuel' Hf')].
+  - inversion Hok as [|? ? Ht Hok']; subst. cbn [tok_ok] in Ht. cbn [sep_ok] in Hsep. destruct Hsep as [Hst Hsep].
+    cbn [render] in *. unfold fd_mark in *. cbn [app] in Hf |- *. rewrite <- app_assoc in Hf |- *. cbn [app] in Hf |- *.
+    destruct fuel as [|fuel]; [cbn in Hf; lia|].
+    cbn [text_agrees]. change (1 =? 1) with true. cbn iota.
+    destruct (fmt_nat_spec x Ht) as (Hd & Hv & _).
+    rewrite (span_digits_app (fmt_nat x) 1 (render (fun bits => 1 :: fmt_nat bits ++ [1]) ts) Hd eq_refl).
+    rewrite (num_ok_scan l i Hl (agrees_stop ts i Hst Ha)).
+    rewrite Hv, Hx. cbn [andb].
+    apply (IH Hok' Hsep). cbn [length] in Hf. rewrite app_length in Hf. cbn [length] in Hf. lia.
+Qed.
